@@ -50,7 +50,7 @@ def dispatch : List String → Option String
     -- all hunks of one file in one request: `G item ; item ; …`
     match ofHex c, spans? rest with
     | some c, some xs =>
-      some ("G " ++ " ; ".intercalate (xs.map (fun x => showGeom (Hunks.hunkGeomAtG Gen.lineAfterColumnIsByte c x.1 x.2.1 x.2.2.1 x.2.2.2))))
+      some ("G " ++ " ; ".intercalate (xs.map (fun x => showGeom (Hunks.hunkGeomAtG Gen.lineAfterColumnIsByte Gen.lineAfterDecodesParts c x.1 x.2.1 x.2.2.1 x.2.2.2))))
     | _, _ => some "bad-req"
   | "findmatches" :: c :: vs =>
     match ofHex c, hexList vs with
@@ -65,7 +65,7 @@ def dispatch : List String → Option String
   | ["hunkgeom", c, s, e, t, r] =>
     match ofHex c, s.toNat?, e.toNat?, ofHex t, ofHex r with
     | some c, some s, some e, some t, some r =>
-      some (match Hunks.hunkGeomAtG Gen.lineAfterColumnIsByte c s e t r with
+      some (match Hunks.hunkGeomAtG Gen.lineAfterColumnIsByte Gen.lineAfterDecodesParts c s e t r with
         | .skip => "g skip"
         | .panic => "g panic"
         | .ok h how => s!"g {showHunk h} {showHow how}")
@@ -81,7 +81,7 @@ def dispatch : List String → Option String
     match ofHex f, ofHex p, ofHex r with
     | some f, some p, some r =>
       if p.isEmpty then some "bad-req"
-      else some (" ".intercalate ("p" :: (Hunks.planLiteral Gen.replaceOffsetsFileRelative f p r).map showHunk))
+      else some (" ".intercalate ("p" :: (Hunks.planLiteralS Gen.replaceOffsetsFileRelative Gen.replaceSkipsInvalidUtf8 f p r).map showHunk))
     | _, _, _ => some "bad-req"
   | ["strlines", f] =>
     match ofHex f with
